@@ -127,6 +127,8 @@ func PriceTable(mode string, unit *big.Int, variant int64) map[string]*big.Int {
 			res[f] = big.NewInt(0)
 		case "flat":
 			res[f] = new(big.Int).Set(milli)
+		case "unit":
+			res[f] = new(big.Int).Set(unit)
 		default:
 			v := new(big.Int).Mul(big.NewInt(primes[i]+variant*primes[(i+7)%len(primes)]), milli)
 			if f == "PayloadByte" {
@@ -471,9 +473,14 @@ func StandardWorld(name string) *World {
 		w.Accounts = append(w.Accounts, GenAccount{Name: "o1", Bal: map[string]string{"BIP": "100u"}})
 		w.Candidates = []GenCandidate{{Name: "v1", Owner: "o1", Reward: "o1", Control: "o1", Commission: 10, Validator: true, Stakes: []GenStake{{Owner: "o1", Coin: "BIP", Value: "1000u"}}}}
 		return w
-	case "W1s": // small balances: amounts are a handful of units, for TLC-generated ledger scenarios
-		w := &World{Name: "W1s", StakePeriod: 6, ExpirePeriod: 5, InitialHeight: 101}
+	case "W1s", "W1u": // the model's genesis (MCLedger.Genesis): balances 3, 3, 1 units; W1u has every price = one unit
+		w := &World{Name: name, StakePeriod: 1000, ExpirePeriod: 1000, InitialHeight: 101}
 		w.Accounts = accs(3, map[string]string{"BIP": "3u"})
+		w.Accounts[2].Bal["BIP"] = "1u"
+		w.PrevReward = &GenPrevReward{Time: 0, BIP: "350", USDT: "1", Reward: "1u"}
+		if name == "W1u" {
+			w.PriceMode = "unit"
+		}
 		w.Accounts = append(w.Accounts, GenAccount{Name: "o1", Bal: map[string]string{"BIP": "100u"}})
 		w.Candidates = []GenCandidate{{Name: "v1", Owner: "o1", Reward: "o1", Control: "o1", Commission: 10, Validator: true, Stakes: []GenStake{{Owner: "o1", Coin: "BIP", Value: "1000u"}}}}
 		return w
